@@ -909,13 +909,17 @@ def run_astype(rep):
         rep.bounded_case(("astype " + lab, "N-astype"))
         try:
             f = lambda v: post(v.astype(dt))
-            g = onp.asarray(make_vjp(f, x)[0](1.0))
+            vjp_, val_ = make_vjp(f, x)
+            g = onp.asarray(vjp_(onp.ones((), dtype=onp.asarray(val_).dtype)[()]))      # the seed grad() itself uses: one, in the OUTPUT's dtype
             ok = g.dtype == x.dtype and g.shape == x.shape and onp.allclose(g, gexp, rtol=1e-3)
             det = f"gradient {g.tolist()} of dtype {g.dtype} for an argument of dtype {x.dtype}; expected {onp.asarray(gexp).tolist()} in the argument's dtype"
             if ok:
-                t = onp.asarray(make_jvp(lambda v: v.astype(dt), x)(onp.ones_like(x))[1])
-                ok = t.dtype == onp.dtype(dt) and t.shape == x.shape
-                det = f"tangent of x.astype({onp.dtype(dt)}) has dtype {t.dtype}"
+                try:
+                    t = onp.asarray(make_jvp(lambda v: v.astype(dt), x)(onp.ones_like(x))[1])
+                    ok = t.dtype == onp.dtype(dt) and t.shape == x.shape
+                    det = f"tangent of x.astype({onp.dtype(dt)}) has dtype {t.dtype}"
+                except NotImplementedError:
+                    pass      # no forward rule for astype: loud, allowed - and it must not hide the reverse-mode verdict above
         except Exception as e:
             rep.note(f"N-astype {lab}: raised {type(e).__name__}: {str(e)[:60]}")
             continue
